@@ -535,8 +535,10 @@ def oracle_triple(a, b, c, oab, obc, oac, route, F, stats):
                 F.add("total preorder: transitivity (strict)", case, "a < b <= c or a <= b < c but a < c is %s" % oac["ops"][0])
 
 
-def oracle_contains(c, x, line, route, F, stats):
+def oracle_contains(c, x, line, route, F, stats, extra=None):
     case = {"route": route, "container": text(c), "x": text(x), "impl": line}
+    if extra:
+        case.update(extra)
     if has_nan(c) or has_nan(x):
         return
     f = line.split()
@@ -865,6 +867,137 @@ def run_histories(obs, rng, tier, work, F, stats):
     return len(lines), ""
 
 
+# ------------------------------------------------------------------ values spelled as source text
+
+def gen_family_list(r):
+    """a short list of scalars of one family of mutually == values (small ints / floats / bytes, or strings / byte_slices)"""
+    n = r.below(6)
+    if r.chance(2, 3):
+        one = r.chance(1, 2)
+        t = r.below(3)
+        items = []
+        for _ in range(n):
+            k = r.below(5)
+            items.append([("i", k), ("d", fbits(float(k))), ("y", k)][t if one else r.below(3)])
+        return ("L", items)
+    one = r.chance(2, 3)
+    t = r.below(2)
+    return ("L", [("sb"[t if one else r.below(2)], r.choice(STRS[:6])) for _ in range(n)])
+
+
+def gen_spelled(rng, tier):
+    """(kind, values) for the spelled routes `k` (membership) and `e` (pairs); each is preceded by its object-API twin"""
+    q = tier == "quick"
+    out = []
+    for k in range(3000 if q else 80000):
+        c = rng.below(10)
+        if c < 5:
+            cont = gen_family_list(rng)
+        elif c < 6:
+            cont = ("L", [gen_value(rng, 1) for _ in range(rng.below(5))])
+        elif c < 8:
+            cont = ("S", dedup_set([gen_hashable(rng) for _ in range(rng.below(5))]))
+        elif c < 9:
+            ks = []
+            for _ in range(rng.below(4)):
+                kk = rng.choice(KEYS)
+                if kk not in ks:
+                    ks.append(kk)
+            cont = ("M", [(kk, gen_scalar(rng)) for kk in ks])
+        else:
+            cont = gen_value(rng, 1)
+        members = cont[1] if cont[0] in "LS" else ([("s", kk) for kk, _ in cont[1]] if cont[0] == "M" else [])
+        d = rng.below(8)
+        if members and d < 2:
+            x = rng.choice(members)
+        elif members and d < 6:
+            x = cousin(rng, rng.choice(members))
+        elif d < 7 and cont[0] == "L":
+            x = rng.choice([("i", rng.below(6)), ("d", fbits(float(rng.below(6)))), ("y", rng.below(6)), ("s", rng.choice(STRS[:6])),
+                            ("b", rng.choice(STRS[:6]))])
+        else:
+            x = gen_value(rng, 1)
+        out.append(("C", (cont, x)))
+        out.append(("k", (cont, x)))
+    for k in range(2500 if q else 60000):
+        a = gen_value(rng, 0) if rng.chance(2, 3) else gen_homo(rng, rng.choice(HOMO))
+        c = rng.below(10)
+        b = a if c < 2 else (cousin(rng, a) if c < 8 else gen_value(rng, 0))
+        out.append(("P", (a, b)))
+        out.append(("e", (a, b)))
+    return out
+
+
+def run_spelled(obs, rng, tier, work, F, stats):
+    """the laws on values that the script WRITES OUT: literal operands in place, in variables, in call results, nested in
+    other literals ... - every spelling must answer as the object API does and obey the same laws"""
+    cases = gen_spelled(rng, tier)
+    lines = ["%s %s" % (k, " ".join(text(v) for v in vs)) for k, vs in cases]
+    got, err = run_sharded(obs, lines, work, "spell", C.NCPU)
+    if got is None:
+        return None, err
+    api = None
+    for (k, vs), line, g in zip(cases, lines, got):
+        if k in "CP":
+            api = g
+            continue
+        src = ""
+        for tok in g.split():
+            if tok.startswith("SRC="):
+                src = bytes.fromhex(tok[4:]).decode("utf-8", "replace")
+        if g.startswith("SCRIPTERR") or g.startswith("BADCASE"):
+            if not any(has_nan(v) for v in vs):
+                F.add("observation", {"case": line, "impl": g[:300], "script": src}, "the spelled script produced no observation")
+            continue
+        stats["spelled"] += 1
+        if k == "k":
+            c, x = vs
+            f = g.split()
+            spell = dict(t.split("=I", 1) for t in f if "=I" in t and not t.startswith("SRC="))
+            qlit = [t for t in f if t.startswith("Q")][0]
+            qvar = [t for t in f if t.startswith("V")][0]
+            if has_nan(c) or has_nan(x):
+                continue
+            extra = {"script": src}
+            for name, ans in spell.items():
+                oracle_contains(c, x, "I%s %s" % (ans, qlit), "script, spelling " + name, F, stats, extra)
+            if qlit[1:] != qvar[1:]:
+                F.add("in agrees with iterating and comparing", {"case": line, "impl": g[:300], "script": src},
+                      "iterating the container literal and comparing gives %s, iterating the same container held in a variable gives %s" % (qlit[1:], qvar[1:]))
+            if len(set(spell.values())) > 1:
+                F.add("in agrees with iterating and comparing", {"case": line, "container": text(c), "x": text(x), "answers": spell, "script": src},
+                      "the membership test answers differently depending on how container and value are spelled: %s"
+                      % ", ".join("%s=%s" % kv for kv in sorted(spell.items())))
+            if api is not None and api.split()[:1] and api.split()[0] in ("I0", "I1"):
+                wrong = sorted(n for n, a in spell.items() if "I" + a != api.split()[0])
+                if wrong:
+                    F.add("script and API agree", {"case": line, "api": api, "answers": spell, "script": src},
+                          "Contains() through the object API answers %s, the script spellings %s answer otherwise" % (api.split()[0][1], ", ".join(wrong)))
+            if "1" in spell.values() and any(tag(m) != tag(x) for m in (c[1] if c[0] in "LS" else [])):
+                stats["spelled_cross_type_hits"] += 1
+        else:
+            a, b = vs
+            parts = [t.strip() for t in g[2:].split("|")]
+            names = ["literal-literal", "variable-literal", "literal-variable", "through-parameters"]
+            obs_lines = parts[:len(names)]
+            for name, ol in zip(names, obs_lines):
+                o = parse_pair(ol)
+                if o is None:
+                    F.add("observation", {"case": line, "impl": ol, "script": src}, "unparsable pair observation")
+                    continue
+                before = len(F.viol)
+                oracle_pair(a, b, o, "script, operands " + name, F, stats)
+                for v in F.viol[before:]:
+                    v["case"]["script"] = src
+                if api is not None and api != ol and not (has_nan(a) or has_nan(b)):
+                    F.add("script and API agree", {"case": line, "api": api, "script_answers": ol, "spelling": name, "script": src},
+                          "operands spelled %s: the script answers differently from the object API" % name)
+            if len(set(obs_lines)) > 1:
+                F.add("script and API agree", {"case": line, "answers": dict(zip(names, obs_lines)), "script": src},
+                      "== / != / < / <= / > / >= / set slots answer differently depending on how the operands are spelled")
+    return len(lines), ""
+
+
 # ------------------------------------------------------------------ case generation
 
 def gen_cases(rng, tier):
@@ -1142,7 +1275,8 @@ def _body(res, tier, obs, model, work, proved):
     stats = {k: 0 for k in ("nan_skipped", "ordered_pairs", "numeric_pairs", "slot_pairs", "typed_triples", "eq_chains",
                             "ordered_triples", "le_chains", "contains", "contains_true", "sort_comparable",
                             "sort_incomparable", "sort_moved", "sets", "sets_with_merges", "truthy_containers",
-                            "route_pairs", "route_differences", "histories", "history_steps", "history_mutations")}
+                            "route_pairs", "route_differences", "histories", "history_steps", "history_mutations",
+                            "spelled", "spelled_cross_type_hits")}
     nontrivial = set()
     kinds = {}
     parsed = {}
@@ -1203,9 +1337,15 @@ def _body(res, tier, obs, model, work, proved):
                       nofail=True, tag="run")
         return
 
+    nsp, serr = run_spelled(obs, rng, tier, work, F, stats)
+    if nsp is None:
+        res.violation({"property": PROP, "kind": "harness-run-failed", "stage": "c15obs spelled values", "log": serr},
+                      nofail=True, tag="run")
+        return
+
     known_ids = load_known_ids()
 
-    evals = len(lines) + nh
+    evals = len(lines) + nh + nsp
     cov["evaluations"] = evals
     cov["distinct_nontrivial"] = len(nontrivial)
     cov["rule"] = ("values generated from C.Rng(seed): scalars at boundary values (ints around 2^53, 2^63, byte range; floats "
@@ -1220,7 +1360,10 @@ def _body(res, tier, obs, model, work, proved):
                    "an element, set inputs that merge members. Histories (oracle only, both routes): one set / map / list object "
                    "is observed, changed through its methods, `c[k] = v`, the delete() builtin or the Go API, and observed "
                    "again by every reader (in, iteration, sorted, len, truthiness, list, keys, printing, JSON, indexing, ==, "
-                   "copies), each also on a new container with the same raw contents.")
+                   "copies), each also on a new container with the same raw contents. Spelled values (oracle only): container and "
+                   "value, and the operands of the comparison operators, written out as source text - the literal in place, held in a "
+                   "variable, returned by a call, element of an enclosing literal, parenthesised, passed as arguments, as a condition, "
+                   "through `not in` -: every spelling must obey the laws, answer like every other spelling and like the object API.")
     cov["samples"] = [{"case": lines[nc + i], "impl": go[nc + i], "model": mo[nc + i]}
                       for i in range(0, len(cases), max(1, len(cases) // 14))][:14]
     cov["correspondence"] = {"cases": evals, "differences": ndiff, "unparsable": badcase, "first_differences": diffs[:5]}
